@@ -6,8 +6,8 @@ open Lp Lp.C07
     answer is the same under both it does not depend on them (support branch, guard, or a value
     that is rational) and is printed exactly (`ok const v`); otherwise the answer is `ok glue` and
     the comparator evaluates the definition with mpmath. -/
-def TA : Fn := ⟨fun _ => 2, fun _ => 2, fun _ => 2, fun _ => 2, fun _ _ => 2, 2, fun _ => 2, fun _ _ => 2, fun _ _ => 2, fun _ _ => 2, fun _ => 2⟩
-def TB : Fn := ⟨fun _ => 3, fun _ => 5, fun _ => 7, fun _ => 1/3, fun _ _ => 1/5, 3, fun _ => 1/7, fun _ _ => 1/11, fun _ _ => 1/13, fun _ _ => 17, fun _ => 1/19⟩
+def TA : Fn := ⟨fun _ => 2, fun _ => 2, fun _ => 2, fun _ => 2, fun _ _ => 2, 2, fun _ => 2, fun _ => 2, fun _ _ => 2, fun _ _ => 2, fun _ _ => 2, fun _ => 2⟩
+def TB : Fn := ⟨fun _ => 3, fun _ => 5, fun _ => 7, fun _ => 1/3, fun _ _ => 1/5, 3, fun _ => 1/7, fun _ => 1/23, fun _ _ => 1/11, fun _ _ => 1/13, fun _ _ => 17, fun _ => 1/19⟩
 
 def cls (f : Fn → Except Err Rat) : String :=
   match f TA, f TB with
